@@ -15,6 +15,14 @@ CLAIMED = {
   "Contract proof of ruleFactory.CreateRule / initWithDefaultRule / NewRuleFactory over the real SSA: for every stage (authentication, authorization/contextualization, finalization, error handling) the effective pipeline is the rule's own (the logged result of the pipeline builders) when non-empty, else the default rule's, else empty; backtracking is the rule's own setting, else the default rule's, else off; a rule without authenticator, or without forward_to in proxy mode, is rejected; default slash handling is off. All default rules x all rule definitions, unbounded.",
   "Not yet under contract: the ordering automaton inside createExecutePipeline (authenticators, then authorizers/contextualizers, then finalizers) and unknown-mechanism errors; the own-setting clause with a default rule present relies on the cell-heap immutability analysis. Trusted: effect-free list, factory fields init-only (checked by whole-program scan).",
   "contract-based deductive verification (govc VC generation over go/ssa, z3/cvc5)", "DESIGN.md §6 C14"),
+ "C04": ("proof",
+  "Contract proof over the real SSA with a ghost log of authenticator calls: compositeSubjectCreator.Execute tries the configured authenticators in order, returns the subject of the first success, and reaches a later authenticator only if every earlier one failed with ErrArgument (no usable credentials) or allows fallback (loop invariant over the call log, all chain lengths). Every authenticator implementation is checked against the interface contract (success implies a subject); rule-level WithConfig overrides of allow_fallback_on_error are proved to be exactly the override, else the catalogue value.",
+  "Not yet under contract: the classification of each authenticator's own errors (ErrArgument only when no credentials were found) - errorchain is trusted-in-repo and the extractors are not annotated yet. errors.Is is an uninterpreted relation with the axioms of specs/errors.spec.",
+  "contract-based deductive verification (govc VC generation over go/ssa, z3/cvc5)", "DESIGN.md §6 C04"),
+ "C01": ("proof",
+  "Contract proof over the real SSA with ghost call logs (authenticator calls, pipeline steps, condition evaluations, CEL evaluations, error handlers, SetPipelineError): ruleImpl.Execute returns nil error only if an authenticator produced a subject and every configured step of both composites ran and returned nil or is continue-on-error, or a non-nil pipeline error was recorded on the context last; conditional steps run exactly when their condition is true, are skipped when false and fail when the condition cannot be evaluated (CEL runtime errors are passed through, never turned into 'false'); every error handler implementation that reports success has recorded a non-nil pipeline error; the executor runs a rule only if the repository returned one. Unbounded in pipeline length and outcome vectors.",
+  "Composition lemma (pen and paper, DESIGN.md): rule-level contract + Finalize contracts + handler contract => positive answer only after a completed pipeline. Handler/Finalize/recovery contracts are being added; until then the entry points are outside the claimed set. Trusted: cel-go Program.Eval spec, errors.Is axioms, Go dynamic dispatch for logged interface calls.",
+  "contract-based deductive verification (govc VC generation over go/ssa, z3/cvc5)", "DESIGN.md §6 C01"),
 }
 NOT_APPLICABLE = {
  "C20": "no contract within reach expresses or decides it: the behaviour lives in reflection-driven third-party code (koanf, mapstructure, yaml, jsonschema) and recursive any-typed merges; see DESIGN.md §6 C20",
